@@ -285,6 +285,11 @@ func c32UintReduced() []uint64 {
 	return []uint64{0, 1, 2, 255, 1<<32 - 1, 1 << 32, 1<<32 + 1, 1<<63 - 1, 1 << 63, 1<<63 + 1, math.MaxUint64 - 1, math.MaxUint64}
 }
 
+// medium set for the 4-operand op in the thorough tier (20^4 tuples per version)
+func c32UintMedium() []uint64 {
+	return append(c32UintReduced(), 3, 0xffff, 1<<16, 1<<31, 1<<33, 1<<32+1<<31, 1<<63+1<<32, math.MaxUint64-(1<<32)+1)
+}
+
 func c32Rep(b byte, n int) []byte { return bytes.Repeat([]byte{b}, n) }
 
 func c32Cat(parts ...[]byte) []byte {
@@ -347,7 +352,7 @@ func c32Around(base int64, offs ...int64) []uint64 {
 }
 
 // c32Enumerate calls fn for every operand tuple of the op's boundary domain. full selects the large uint set for the
-// 3- and 4-operand ops.
+// 3-operand ops and the medium set for the 4-operand op (otherwise the reduced set).
 func c32Enumerate(op *c32Op, full bool, fn func(args []c32Val)) {
 	U := c32UintBoundary()
 	R := c32UintReduced()
@@ -431,9 +436,12 @@ func c32Enumerate(op *c32Op, full bool, fn func(args []c32Val)) {
 		for i, k := range op.args {
 			switch k {
 			case 'i':
-				if len(op.args) >= 3 && !full {
+				switch {
+				case len(op.args) >= 3 && !full:
 					doms[i] = uvals(R)
-				} else {
+				case len(op.args) >= 4:
+					doms[i] = uvals(c32UintMedium())
+				default:
 					doms[i] = uvals(U)
 				}
 			case 'I':
@@ -815,6 +823,9 @@ func c32DrawArgs(t *rapid.T, op *c32Op) []c32Val {
 	if len(args) == 2 && op.args[0] == op.args[1] && rapid.IntRange(0, 3).Draw(t, "corr") == 0 {
 		if args[0].isB {
 			args[1] = c32B(c32PerturbBytes(t, args[0].b))
+			if len(args[1].b) > 4096 { // not a legal AVM value
+				args[1] = c32B(append([]byte{}, args[0].b...))
+			}
 		} else {
 			args[1] = c32U(args[0].u + uint64(rapid.IntRange(-1, 1).Draw(t, "du")))
 		}
